@@ -28,11 +28,22 @@ class C17(Prop):
                 good_y = ["$.user.name", "$.user.age", "$.tags[0]", "$.time", "$.ok"]
                 bad_y = ["$.missing", "$.user.nope"]
                 ms = []
-                for _ in range(r.range(1, 3)):
-                    ms.append({"kind": r.choice(["any", "custom"]), "paths": [r.choice(good_y)], "ret": '"<c>"'})
+                ytypes = {"$.user.name": "string", "$.user.age": "uint64", "$.tags[0]": "string", "$.time": "string", "$.ok": "bool"}
+                for pth in r.shuffle(list(good_y))[: r.range(1, 3)]:      # distinct paths: matchers apply left to right
+                    kind = r.choice(["any", "custom", "type"])
+                    ms.append({"kind": kind, "paths": [pth], "ret": '"<c>"', "type": ytypes[pth]})
                 if fail:
-                    f = fail if fail != "mixed" else r.choice(["missing", "custom"])
-                    bm = {"kind": "any", "paths": [r.choice(bad_y)]} if f in ("missing", "type") else {"kind": "custom", "paths": [r.choice(good_y)], "err": True}
+                    f = fail if fail != "mixed" else r.choice(["missing", "custom", "type"])
+                    if f == "missing":
+                        bm = {"kind": r.choice(["any", "type"]), "paths": [r.choice(bad_y)], "type": "string"}
+                    elif f in ("type", "nulltype"):
+                        # a value of the wrong type for Type, at a path no other matcher rewrites first
+                        used = {m_["paths"][0] for m_ in ms}
+                        pth = r.choice([q for q in good_y if q not in used] or good_y)
+                        ms = [m_ for m_ in ms if m_["paths"][0] != pth]
+                        bm = {"kind": "type", "paths": [pth], "type": "bool" if ytypes[pth] != "bool" else "string"}
+                    else:
+                        bm = {"kind": "custom", "paths": [r.choice(good_y)], "err": True}
                     ms.insert(r.below(len(ms) + 1), bm)
             env = r.choice(G.ENVS)
             upd = r.choice([None, None, True, False])
